@@ -526,7 +526,7 @@ func main() {
 	r.QuietStderr()
 	debug.SetGCPercent(400)
 	r.DistinctSet = "outcomes"
-	r.Rule = "BFS over all chain histories of {Commit(W) at height tip+1 for W in 7 ordered write lists over 3 keys x 2 values, EmptyHeight (height passes, nothing stored), SetEmptyWriteList (height stored through Set with no writes), Fork(1), Fork(2) (the tip goes back; later commits reuse heights), Prune (real PruningTree at the tip height), Jump(+500000) (height counter crosses the second/third-level thresholds)} on the real mavl Store with pruning enabled; harnesses: PruneHeight 2 with direct Set, PruneHeight 3 with MemSet+Commit, PruneHeight 2 with the store's own background trigger (awaited after each commit). state = (tip, chain heights+roots, raw database, maxBlockHeight). After every event: raw walk of every node record and point reads of every key for the tip state and every current-chain state of a height in (tip-PruneHeight, tip]. distinct = situations (commit/prune x forked x root-recurs x level) observed"
+	r.Rule = "BFS over all chain histories of {Commit(W) at height tip+1 for W in 7 ordered write lists over 3 keys x 2 values, EmptyHeight (height passes, nothing stored), SetEmptyWriteList (height stored through Set with no writes), Fork(1), Fork(2) (the tip goes back; later commits reuse heights), Prune (real PruningTree at the tip height), Jump(+500000) (height counter crosses the second/third-level thresholds)} on the real mavl Store with pruning enabled; harnesses: PruneHeight 2 with direct Set, PruneHeight 3 with MemSet+Commit, PruneHeight 2 with the store's own background trigger (awaited after each commit). state = (tip, chain heights+roots, raw database, maxBlockHeight). After every event: raw walk of every node record and point reads of every key for the tip state and every current-chain state of a height in (tip-PruneHeight, tip]. distinct = situations (commit/prune x forked x root-recurs x level) observed. Interrupted-commit part: heights 1-2, a commit of four 400 KB values at height 3 during which the process stops after every number of durable writes, restart on the durable content, height 3 committed again (another block / the same block), heights 4..7, PruningTree at 7: states of heights 6 and 7 read with the model's values"
 	r.Assume = []string{"values are non-empty", "the model follows the current chain only; abandoned branches may be pruned", "background trigger: the pruning goroutine is awaited right after the commit that started it (one schedule; the interleaved schedules belong to the scheduler-based part)", "in-memory backend with the adapter that lets a batch delete an absent key (goleveldb semantics)", "level-1 subtrees are distributed over worker processes: depth-1/2 transitions are counted once per worker"}
 	forkOps := []int{4, 1, 3, 100 + opEmpty, 100 + opFork1, 100 + opPrune} // [a=1,b=1], [a=2], [b=2], EmptyHeight, Fork(1), Prune
 	hs := []harness{
@@ -543,6 +543,10 @@ func main() {
 		}
 		json.Unmarshal(raw, &c)
 		f := "unknown harness " + c.Harness
+		if c.Harness == "interrupted-commit" {
+			crashPart(r)
+			r.Finish()
+		}
 		for _, q := range concScheds(r, true) {
 			if q.Name == c.Harness {
 				res := (*vrt.Result)(nil)
@@ -587,6 +591,9 @@ func main() {
 	}
 	if sh, _ := r.Shard(); sh == 0 && os.Getenv("C05_ONLY") == "" {
 		concurrentPart(r)
+	}
+	if sh, nsh := r.Shard(); (sh == 1 || nsh <= 1) && os.Getenv("C05_ONLY") == "" {
+		crashPart(r)
 	}
 	// second-level part: enumerated histories that move version-index entries to the second level and
 	// then prune there (a four-key tree, so that leaves have inner nodes below the root), on the
